@@ -158,12 +158,12 @@ add("C16", "c_transport",
     text="The receiver yields exactly the sent payload sequence per sender; the wire parses with the reference reader to the same payloads; 4-byte frames come back as ProtocolErr; the listener selects the codec the client chose.",
     note="Trusts the harness reference framing written from the transport specification.")
 add("C17", "c_transport",
-    [T("TestC17", 40000, 400000), T("TestC17Sweep", 1, 1, rapid=False)],
+    [T("TestC17", 40000, 400000), T("TestC17Reuse", 400, 4000), T("TestC17Sweep", 1, 1, rapid=False)],
     pre=["TestC17Regression_full_length_below_12", "TestC17Regression_abridged_length_unchecked", "TestC17Known"],
     fuzz=[dict(name="FuzzC17", seconds=120)],
-    rule="per protocol: random streams, valid streams with mutated length fields, bit flips, truncations, splices, hostile prefixes (every prefix 0..64 and a grid to 2^32-1; abridged first byte 0..255 with all-ones/zero/random tails), full-transport frames with wrong seq/CRC; plus an exhaustive small-prefix sweep (4306 cases). non-trivial = the first frame's length prefix is wholly present; distinct by input",
+    rule="per protocol: random streams, valid streams with mutated length fields, bit flips, truncations, splices, hostile prefixes (every prefix 0..64 and a grid to 2^32-1; abridged first byte 0..255 with all-ones/zero/random tails), full-transport frames with wrong seq/CRC; plus an exhaustive small-prefix sweep (4306 cases); plus (TestC17Reuse) 1..3 valid frames of 8 bytes..16 MiB read back to back into a destination buffer that already holds 0..16 MiB of stale bytes and is not reset in between. non-trivial = the first frame's length prefix is wholly present (Reuse: the buffer holds stale bytes when a frame is read into it); distinct by input",
     technique="mutation-based PBT (rapid) + exhaustive small-prefix sweep + native fuzzing (thorough); no-panic, bounded-allocation and differential (reference reader) oracles",
-    text="Read returns frames or an error, never panics, never allocates more than 16 MiB + slack for one frame; where the reference reader finds a well-formed frame the codec returns exactly it.",
+    text="Read returns frames or an error, never panics, never allocates more than 16 MiB + slack for one frame (for a reused non-empty buffer: + the quarter the Go runtime may add when it grows a slice), whatever the destination buffer held before; where the reference reader finds a well-formed frame the codec returns exactly it.",
     note="Allocation is measured with runtime/metrics and re-measured with ReadMemStats before a breach counts.")
 add("C18", "c_transport",
     [T("TestC18", 15000, 150000), T("TestC18Listener", 8000, 80000)],
@@ -173,7 +173,7 @@ add("C18", "c_transport",
     note="")
 add("C19", "c_transport",
     [T("TestC19", 4000, 40000), T("TestC19Handshake", 8000, 80000, env=BUBBLE)],
-    pre=["TestC19Regression_write_over_65535", "TestC19Known"],
+    pre=["TestC19Regression_write_over_65535", "TestC19Regression_write_after_refused_write", "TestC19Known"],
     rule="write sizes from {0,1,16383,16384,65534,65535,65536,65537,131071,1 MiB,4 MiB} and uniform, 1..6 writes, read buffers 1..128 KiB, two FakeTLS peers and the reference record parser on the wire; handshakes against a reference server hello with right secret/random, wrong secret, wrong random, flipped digest/body bit, zero digest, 1..17 extra handshake records. non-trivial = some write > 65535 or a handshake with a wrong digest; distinct by sizes / variant",
     technique="round-trip PBT (rapid) + reference TLS record reader and reference HMAC digest",
     text="Reader's byte stream equals the concatenated writes; every record's length field equals its actual length <= 65535; the handshake succeeds iff the digest is right.",
@@ -181,7 +181,7 @@ add("C19", "c_transport",
 
 
 add("C32", "c_files",
-    [T("TestC32", 1500, 4000, env=BUBBLE), T("TestC32Parallel", 1000, 4000, env={"GOMAXPROCS": "4"}), T("TestC32Boundaries", 1, 1, rapid=False, env=BUBBLE, timeout_thorough=2400)],
+    [T("TestC32", 1500, 4000, env=BUBBLE), T("TestC32Parallel", 1000, 4000, env={"GOMAXPROCS": "4"}), T("TestC32Boundaries", 1, 1, rapid=False, env=BUBBLE, timeout_thorough=4800)],
     pre=["TestC32Regression_unknown_total_exact_multiple"],
     rule="deterministic generator sources (byte=f(seed,offset), short reads, EOF with or after the last bytes), known total or -1, automatic / explicit valid / explicit invalid part sizes, 1..8 threads, sizes around k*part, 10 MiB+-1, 3999*part+-1 (2 GB class in thorough only), mock server answering true/false/FLOOD_WAIT_n/FLOOD_PREMIUM_WAIT_n from a drawn (part, attempt) script with virtual latencies. non-trivial = (n>=2 and >=1 retry) or size within +-1 of a threshold; distinct by parameters",
     technique="model-based PBT on virtual time (rapid + testing/synctest): part ledger vs. the source",
@@ -195,7 +195,7 @@ add("C33", "c_files",
     text="Stream: exact byte sequence; Parallel: every WriteAt matches the file, spans tile [0,size) without gap or overlap; returned type equals served type; requests stay on the part grid.",
     note="")
 add("C34", "c_files",
-    [T("TestC34", 2500, 25000, env=BUBBLE), T("TestC34Parallel", 1500, 15000, env={"GOMAXPROCS": "4"}), T("TestC34HashFlood", 12, 120, env={"GOMAXPROCS": "4"}, shards=4), T("TestC34Plan", 1, 1, rapid=False, env=BUBBLE, timeout_thorough=2400)],
+    [T("TestC34", 2500, 25000, env=BUBBLE), T("TestC34Parallel", 1500, 15000, env={"GOMAXPROCS": "4"}), T("TestC34HashFlood", 12, 120, env={"GOMAXPROCS": "4"}, shards=4), T("TestC34Plan", 1, 1, rapid=False, env=BUBBLE, timeout_thorough=4800)],
     pre=["TestC34Regression_short_cdn_reply_accepted", "TestC34Regression_overlong_cdn_reply_delivered", "TestC34Regression_bytes_past_verified_tail"],
     rule="genuine files <= 4 MiB with regular/irregular hash windows, honest hash service on all four paths, modes master-verify / cdn-inline (x3) / cdn-verify, part sizes aligned and not aligned with windows, 1..4 threads, events (master-direct, reupload, token invalid, fingerprint errors), adversarial CDN mutations (flip, truncate, truncate at window, empty, extend with genuine/garbage, other offset, swap, wrong counter base) keyed by file position; plus the complete (offset, limit) grid of the CDN request plan (quick 272x136, thorough 600x300, exhaustive:true). non-trivial = a served reply was actually changed (TestC34) / plan needs >1 request (plan); distinct by parameters. Replies shorter than the asked limit in cdn-inline mode are the shape of the listed known finding and are excluded at the adversary (counted)",
     technique="adversarial PBT on virtual time (rapid + synctest) with a reference CDN (AES-CTR, SHA-256, plan predicate in pbt/ref/cdn.go) + exhaustive enumeration of the request-plan grid",
@@ -233,8 +233,8 @@ add("C41", "c_mtproto",
     text="Get returns only salts valid beyond the deadline and fails only when none is; every client frame carries a salt the server told or a stored future salt valid beyond now+5min; bad_server_salt => exactly one re-send with the new salt; a second one fails the call.",
     note="Tolerated and counted: the client keeps a previously stored future salt when every stored salt has expired and the server told nothing newer (no valid salt exists then).")
 add("C43", "c_mtproto",
-    [T("TestC43Ping", 15000, 100000, env=CONN), T("TestC43KeepAlive", 15000, 100000, env=CONN)],
-    rule="1..3 concurrent Ping calls with deadlines 1..20 s and 0..3 scripted pongs each (own id, id of another in-flight ping, random id, duplicate) at drawn virtual times; keep-alive loop with interval/timeout drawn (timeout < interval) and per-round pong latency prompt / timeout-1ms / timeout+1ms / never / wrong id. non-trivial = a non-matching or duplicate pong (ping) / latency within 1 ms of the timeout or wrong id (keep-alive); distinct by plan",
+    [T("TestC43Ping", 15000, 100000, env=CONN), T("TestC43KeepAlive", 15000, 100000, env=CONN), T("TestC43Late", 4000, 40000, env=CONN)],
+    rule="1..3 concurrent Ping calls with deadlines 1..20 s and 0..3 scripted pongs each (own id, id of another in-flight ping, random id, duplicate) at drawn virtual times; keep-alive loop with interval/timeout drawn (timeout < interval) and per-round pong latency prompt / timeout-1ms / timeout+1ms / never / wrong id; (TestC43Late) 1..6 rounds on one connection of a ping whose goroutine is held right after its write while its pong (own / other id / none) arrives and/or its context ends (deadline / cancel) in a drawn order, followed by 0..2 further pings with no pong / a pong for the earlier id / own pong in time / own pong late. non-trivial = a non-matching or duplicate pong (ping) / latency within 1 ms of the timeout or wrong id (keep-alive); distinct by plan",
     technique="PBT on virtual time (rapid + testing/synctest) against the reference peer",
     text="Ping returns nil iff a pong with its own id arrived before its deadline, at that instant, else the deadline error at the deadline; Conn.Run ends with an error within the ping timeout of an unanswered keep-alive ping and keeps running otherwise.",
     note="")
@@ -242,9 +242,9 @@ add("C43", "c_mtproto",
 
 P4 = {"GOMAXPROCS": "4"}
 add("C04", "c_crypto",
-    [T("TestC04", 40000, 400000, env=P4), T("TestC04Sweep", 1, 1, rapid=False, env=P4), T("TestC04Conn", 400, 4000, pkg="c_mtproto", env=CONN)],
+    [T("TestC04", 40000, 400000, env=P4), T("TestC04Sweep", 1, 1, rapid=False, env=P4), T("TestC04Conn", 400, 4000, pkg="c_mtproto", env={"GOMAXPROCS": "1"}), T("TestC04Concurrent", 1500, 15000, pkg="c_mtproto", env={"GOMAXPROCS": "1"})],
     pre=["TestRefSelfCheck"],
-    rule="random 2048-bit auth keys (random, leading-zero, constant-byte), edge and random header values, payload lengths 4k over block boundaries, 0..1200, 1.2K..64K, ~1 MiB (0.3%), 8 MiB and ~16 MiB (0.03%), both directions, both Encrypt paths, all 16 low nibbles of the first random byte forced; exhaustive sweep of lengths 0..2048 x 16 nibbles x 2 directions; plus a live mtproto.Conn with CompressThreshold in {-1,1,1024} (no-copy, pre-encoded and gzip paths). non-trivial = payload length mod 16 != 0 or > 16; distinct by (length, nibble, direction)",
+    rule="random 2048-bit auth keys (random, leading-zero, constant-byte), edge and random header values, payload lengths 4k over block boundaries, 0..1200, 1.2K..64K, ~1 MiB (0.3%), 8 MiB and ~16 MiB (0.03%), both directions, both Encrypt paths, all 16 low nibbles of the first random byte forced; exhaustive sweep of lengths 0..2048 x 16 nibbles x 2 directions; plus a live mtproto.Conn with CompressThreshold in {-1,1,1024} (no-copy, pre-encoded and gzip paths), sequentially and (TestC04Concurrent) with 2..5 senders at drawn virtual start times while the harness-owned logger pauses a sender for a drawn time between building and encrypting its message. non-trivial = payload length mod 16 != 0 or > 16; distinct by (length, nibble, direction)",
     technique="round-trip PBT (rapid) cross-checked in both directions by an independent MTProto 2.0 reference (own IGE, KDF, msg_key)",
     text="Impl Encrypt decrypts under the reference to the same header fields and payload, body % 16 == 0, padding in [12,1024]; the other-side impl decrypts through both entry points; reference-encrypted messages with an independently chosen padding decrypt under the impl.",
     note="The reference (pbt/ref/crypto.go) is anchored by the OpenSSL IGE vectors in TestRefSelfCheck.")
@@ -269,7 +269,7 @@ add("C11", "c_crypto",
     text="Result is (data, nil) with SHA1(data) equal to the first 20 bytes of the reference decryption and data a prefix of the rest within 15 bytes of its end, or (nil, err). (nil, nil) is a violation.",
     note="")
 add("C13", "c_crypto",
-    [T("TestC13Residue", 1, 1, rapid=False), T("TestC13GP", 1000, 20000, env=P4), T("TestC13DHSweep", 1, 1, rapid=False, env=P4, timeout_thorough=2400),
+    [T("TestC13Residue", 1, 1, rapid=False), T("TestC13GP", 1000, 20000, env=P4), T("TestC13DHSweep", 1, 1, rapid=False, env=P4, timeout_thorough=4800),
      T("TestC13DH", 60, 1000, env=P4, shards=8), T("TestC13Params", 20000, 300000, env=P4), T("TestC13PQ", 300, 4000, env=P4, shards=8),
      T("TestC10PQ", 3000, 30000, pkg="c_exchange")],
     rule="(a) exhaustive: all 4492 safe primes 7 <= p < 2^20 x g in -1..9 against Euler's criterion (exhaustive:true for that sub-domain) + random 24..160-bit safe primes; (b) CheckDH over 13 known 2048-bit safe primes x g, and reject candidates (non-safe primes, composite 2r+1, 2047/2049-bit, RSA moduli, p+-2k, random odd); (c) CheckDHParams with g_a/g_b from 13 boundary values and random below/inside/above; (d) DecomposePQ over semiprimes from segmented-sieve windows up to sqrt(2^63) incl. p=q, twin and unbalanced factors, and non-semiprime input (primes, 0, 1). non-trivial = all (a), p != q (d); distinct by input",
@@ -310,7 +310,7 @@ add("C12", "c_exchange",
 
 
 add("C31", "c_session",
-    [T("TestC31", 1, 1, rapid=False, timeout_thorough=2400)],
+    [T("TestC31", 1, 1, rapid=False, timeout_thorough=4800)],
     level="fault_enumeration",
     rule="pairs of old/new session.Data (DC option lists of 0..2500 entries: files from ~1 KB to ~500 KB, new smaller/equal/larger than old), 12 pairs in quick and 120 in thorough derived from VERIF_SEED; per pair (1) a reference strace run of a helper process performing Loader.Save, then one run per traced system call touching the session directory with SIGKILL injected at its entry, (1b, every second pair) the same for a storage that starts empty - look for a session (none), store the old one, replace it by the new one on one FileStorage value; up to the marker between the two stores the directory may hold no session or the complete old one, after it the complete old or new one - (2) simulated crash states from the recorded trace: every prefix, the last write applied for 0, 1, n/2, n-1 bytes, and a power-loss model dropping all or half of the data not yet fsynced while completed renames persist. non-trivial = crash point after the first mutating system call and up to the last one, or any power-loss state; distinct by (pair, crash point)",
     technique="crash-point enumeration by system-call fault injection (strace inject=SIGKILL) + trace-driven file-system model; oracle Loader.Load == old or new",
@@ -329,16 +329,16 @@ add("C29", "c_client",
     note="One listed known finding (requests whose transport write fails on a dying connection are failed, not re-sent).",
     assumptions=["each transport frame written by the client is read completely by the peer before the peer acts"])
 add("C30", "c_client",
-    [T("TestC30", 20000, 200000), T("TestC30Concurrent", 20000, 200000), T("TestC30Client", 400, 4000, env={"GOMAXPROCS": "4"}), T("TestC30Load", 2000, 20000, env=CONN)],
-    rule="(d) a whole client against the harness server in real time with 4 Ps: restored session, the session announced before the config answer and (3/4) once more right after it, the client's clock taking 0/20/200/1000 us per reading (schedule perturbation: it widens whatever window lies around a clock reading); every stored session must pair DC 2 with that connection's key (non-trivial = announced again and a slow clock); (c) the same notifications in flight: each is a goroutine stopped by the harness-owned storage before its load and before its save, with primary-DC changes and further notifications drawn in between (non-trivial = a migration or a second notification while one is in flight); (a) histories of session notifications through the build-tagged wrappers of onSession/onCDNSession: primary (for the current primary DC), non-primary DCs, CDN, interleaved with primary-DC changes (session.Migrate), PFS on/off; storage records every save; (b) stored sessions with intact / bit-flipped / truncated / extended key bytes and key ids, zeroed or foreign ids, loaded by Client.Run with a dialer that counts calls. non-trivial = a non-primary or CDN notification between two primary ones (a) / a corrupted session (b); distinct by history / mutation",
+    [T("TestC30", 20000, 200000), T("TestC30Concurrent", 20000, 200000), T("TestC30Client", 400, 4000, env={"GOMAXPROCS": "4"}), T("TestC30TwoClients", 600, 6000, env={"GOMAXPROCS": "1"}), T("TestC30Load", 2000, 20000, env=CONN)],
+    rule="(e) two whole clients in one process (DC 2 and DC 4, own keys, storages, servers; real time, one P), each server announcing sessions 1..3 times before and 0..6 times after the config answer with salts from disjoint sets, storages taking 0..3 ms per save; every stored session must pair the client's own DC with its own key and one of its own salts (non-trivial = both servers announce again and a storage is slow); (d) a whole client against the harness server in real time with 4 Ps: restored session, the session announced before the config answer and (3/4) once more right after it, the client's clock taking 0/20/200/1000 us per reading (schedule perturbation: it widens whatever window lies around a clock reading); every stored session must pair DC 2 with that connection's key (non-trivial = announced again and a slow clock); (c) the same notifications in flight: each is a goroutine stopped by the harness-owned storage before its load and before its save, with primary-DC changes and further notifications drawn in between (non-trivial = a migration or a second notification while one is in flight); (a) histories of session notifications through the build-tagged wrappers of onSession/onCDNSession: primary (for the current primary DC), non-primary DCs, CDN, interleaved with primary-DC changes (session.Migrate), PFS on/off; storage records every save; (b) stored sessions with intact / bit-flipped / truncated / extended key bytes and key ids, zeroed or foreign ids, loaded by Client.Run with a dialer that counts calls. non-trivial = a non-primary or CDN notification between two primary ones (a) / a corrupted session (b); distinct by history / mutation",
     technique="stateful PBT (rapid) with a set-of-legitimate-notifications model; corruption-based PBT for loading",
     text="After every step the stored (DC, key, salt) equals a notification delivered for the DC that was primary when it was delivered (permanent key under PFS); non-primary and CDN notifications never rewrite it; with notifications in flight the stored record is always the (DC, key, salt) of one notification delivered by a connection to that DC; Run fails with the corrupted-key error before any dial whenever SHA1(key)[12:20] != id, and an intact session leads to a dial.",
     note="Notifications with this_dc = 0 (not sent by an honest server) are not generated.")
 
 
 add("C21", "c_tl",
-    [T("TestC21Registry", 1, 1, rapid=False), T("TestC21", 100000, 800000), T("TestC21Sweep", 20, 200, rapid=False, timeout_thorough=2400),
-     T("TestC21Safety", 50000, 400000), T("TestC21Prealloc", 20000, 200000), T("TestC21Deep", 1, 1, rapid=False, timeout_thorough=3000)],
+    [T("TestC21Registry", 1, 1, rapid=False), T("TestC21", 100000, 800000), T("TestC21Sweep", 20, 200, rapid=False, timeout_thorough=4800),
+     T("TestC21Safety", 50000, 400000), T("TestC21Prealloc", 20000, 200000), T("TestC21Deep", 1, 1, rapid=False, timeout_thorough=6000)],
     pre=["TestC21Regression_generic_wrapper_nil_query", "TestC21Regression_accessPointRule_roundtrip", "TestC21Known"],
     fuzz=[dict(name="FuzzC21", seconds=120)],
     rule="all 2600 constructors of tg / mt / e2e (TestC21Sweep covers every constructor N times per run; TestC21 draws them at random), values built by reflection over struct fields (optional groups present with p=1/2, shared flag bits, zero-valued present fields, nested interfaces from the class constructor sets, vectors 0..3, depth budget 4); safety: mutated encodings and raw bytes through five entry points (constructor Decode, tmap.New+Decode, class decoder, DecodeBare, a foreign type); preallocation: vector count words rewritten up to 2^31-1; deep nesting: per type cycle a child process decodes the deepest chain that fits a 10 MiB gzip payload / 16 MiB frame (quick: 3 cycles, thorough: all 57). non-trivial = value has an optional group present or a nested interface / non-empty input / claimed count > 1024 / every deep case; distinct by value or input",
@@ -347,7 +347,7 @@ add("C21", "c_tl",
     note="Known finding: unbounded decoder recursion (stack overflow) for 21 RichText/PageBlock cycles - not repairable minimally (generated decoders).",
     assumptions=["values sampled per constructor, not all values"])
 add("C22", "c_tl",
-    [T("TestC22", 10000, 100000), T("TestC22GzipLimits", 1, 1, rapid=False, timeout_thorough=2400)],
+    [T("TestC22", 10000, 100000), T("TestC22GzipLimits", 1, 1, rapid=False, timeout_thorough=4800)],
     pre=["TestC22Regression_container_negative_count", "TestC22Known"],
     fuzz=[dict(name="FuzzC22", seconds=120)],
     rule="containers of 0..50 messages with bodies up to 1 MiB, rpc_result, unencrypted messages, gzip objects (sizes around 10 MiB, compressible bombs of 16/64/1024 MiB built streaming, concatenated members, corruptions), malformed counts/lengths/truncations/wrong ids, raw bytes; after every case a fixed valid gzip object must decode through the pooled reader. non-trivial = >=2 messages, a body >= 64 KiB, a non-empty result, gzip data >= 4 KiB or near the limit, or any malformed case; distinct by case",
